@@ -9,13 +9,13 @@ worker() {
   wt=$1; idx=$2
   i=0
   while read d; do
-    if [ $((i % 3)) -eq $idx ] && [ -f "$d/patch.diff" ]; then
+    if [ $((i % 6)) -eq $idx ] && [ -f "$d/patch.diff" ]; then
       r=$(tools/mutant_alt.sh $wt "$d/patch.diff" ALL 2>&1 | grep -E "^(MUTANT|INFRA|BASELINE|DOES|PATCH)" | tr '\n' ' ')
       echo "$(basename $d): $r" | sed 's#MUTANT /verif/[^ ]* ##' >> /tmp/matrix.part.$idx
     fi
     i=$((i+1))
   done < /tmp/matrix.list
 }
-worker /tmp/mut 0 & worker /tmp/mut2 1 & worker /tmp/mut3 2 &
+worker /tmp/mut 0 & worker /tmp/mut2 1 & worker /tmp/mut3 2 & worker /tmp/mut4 3 & worker /tmp/mut5 4 & worker /tmp/mut6 5 &
 wait
 cat /tmp/matrix.part.* | sort > "$out"
